@@ -129,6 +129,18 @@ def programs(tier):
     prog = prelude() + [("macrodef", "framed", ["a", "c"], [("raw", ".db a"), ("splice", "c"), ("raw", ".dw a")]),
                         ("call", "framed", [("expr", "k0"), ("code", [("call", "framed", [("expr", "k0"), ("code", [("call", "framed", [("expr", "k0"), ("code", [("raw", "nop")])])])])])])] + postlude()
     out.append(("self-in-own-code/same-args", prog))
+    # a code-block parameter spliced from a scope nested inside the application that received it, and forwarded to another macro
+    inner = [("raw", "php"), ("raw", ".db k0 & 0xff")]
+    for wname, wrapb in {"block": lambda b: [("block", b)], "for": lambda b: [("for", "q", "0", "2", b)], "scope": lambda b: [("scope", "inner_ns", b)],
+                         "if": lambda b: [("if", "1", b, None)], "block-in-for": lambda b: [("for", "q", "0", "2", [("block", b)])]}.items():
+        prog = prelude() + [("macrodef", "w", ["a", "body"], [("raw", ".db a")] + wrapb([("splice", "body"), ("raw", ".db 0x60")]) + [("splice", "body")]),
+                            ("call", "w", [("expr", "1"), ("code", inner)]), ("call", "w", [("expr", "k1 & 0xff"), ("code", [("raw", "nop")])])] + postlude()
+        out.append((f"splice-in-nested/{wname}", prog))
+    prog = prelude() + [("macrodef", "ram_patch", ["addr", "code"], [("raw", ".dl addr"), ("splice", "code"), ("raw", "rtl")]),
+                        ("macrodef", "ram_routine", ["addr", "body"], [("call", "ram_patch", [("expr", "addr"), ("code", [("raw", "php"), ("splice", "body"), ("raw", "plp")])])]),
+                        ("call", "ram_routine", [("expr", "0x7e2000"), ("code", [("raw", "lda.w #k0"), ("raw", "sta.l fwd")])]),
+                        ("call", "ram_routine", [("expr", "back"), ("code", [("raw", "nop")])])] + postlude()
+    out.append(("splice-forwarded", prog))
     # recursion terminated by .if
     for depth in (0, 1, 3):
         prog = prelude() + [("macrodef", "rec", ["n"], [("if", "n", [("raw", ".db n"), ("call", "rec", [("expr", "n - 1")])], None)]),
@@ -140,10 +152,83 @@ def programs(tier):
         for k in (kinds if tier == "thorough" else ["const", "fwd", "pname"]):
             prog = prelude() + [("macrodef", "m", *BODIES["local"])] + wrap([("call", "m", [ARGS[k]]), ("raw", ".db 0x77")]) + [("call", "m", [ARGS["lit"]])] + postlude()
             out.append((f"in-{wname}/{k}", prog))
+    for name, prog in composites().items():
+        out.append((f"composite/{name}", prog))
     # failures
     out.append(("undefined-macro", prelude() + [("call", "nosuch", [ARGS["lit"]])] + postlude()))
     out.append(("missing-argument", prelude() + [("macrodef", "m", *BODIES["two"]), ("call", "m", [ARGS["lit"]])] + postlude()))
     out.append(("missing-all-arguments", prelude() + [("macrodef", "m", *BODIES["db"]), ("call", "m", [])] + postlude()))
+    return out
+
+
+def composites():
+    """Programs of the size and mix a real patch project has (several `*=` blocks, macros applying
+    macros, loops inside macros, named scopes exporting labels used from other scopes and from macro
+    arguments, forward and backward references across blocks, relocated RAM routines, includes that
+    define macros).  p and the V constants are symbolic as everywhere in this harness."""
+    R = lambda t: ("raw", t)  # noqa: E731
+    out = {}
+    store = ("macrodef", "store", ["addr", "val"], [R("lda.w #val"), R("sta.l addr")])
+    fill = ("macrodef", "fill", ["base", "n"], [("for", "i", "0", "n", [("call", "store", [("expr", "base + i * 2"), ("expr", "i")])])])
+    out["gfx-init"] = [
+        R("*= p"), R("kc := 3"), R("k0 = V0"), R("k1 = V1"), store, fill,
+        ("scope", "gfx", [R("init:"), ("call", "fill", [("expr", "0x7e2000"), ("expr", "3")]), R("rts"),
+                          R("table:"), ("for", "j", "0", "4", [R(".dw table + j * 2")]), R("done:")]),
+        R("*= p + 0x1000"), R("main:"), R("jsr.w gfx.init"), R(".dl gfx.table, fwd, gfx.done"),
+        ("call", "store", [("expr", "gfx.table"), ("expr", "k0")]), ("call", "store", [("expr", "fwd"), ("expr", "k1 & 0xff")]),
+        ("call", "fill", [("expr", "0x7e3000"), ("expr", "kc - 1")]),
+        R("fwd:"), R(".db 1"), R(".dl main"),
+    ]
+    # a macro body that moves the position, defines a local label and refers forward to a label behind the application
+    entry = ("macrodef", "entry", ["at", "id"], [R("*= at"), R("here:"), R(".db id"), R(".dl here, tail")])
+    out["blocks-by-macro"] = [
+        R("*= p"), R("k0 = V0"), R("k1 = V1"), entry, R("first:"), R(".dw k0"),
+        ("call", "entry", [("expr", "p + 0x100"), ("expr", "1")]), R(".dl first"),
+        ("call", "entry", [("expr", "p + 0x200"), ("expr", "k1 & 0x7f")]),
+        ("call", "entry", [("expr", "p + 0x80"), ("expr", "3")]),
+        R("tail:"), R(".dl tail, first"),
+    ]
+    # a loop whose body moves the position; every iteration has its own label of the same name
+    out["loop-moves-position"] = [
+        R("*= p"), R("k0 = V0"), R("base := p + 0x400"),
+        ("for", "i", "0", "3", [R("*= base + i * 0x40"), R("slot:"), R(".dw slot, k0 + i"), ("if", "i & 1", [R(".db 0xAA")], [R(".dw 0xBBBB")]), R("slot_end:"), R(".dl slot_end")]),
+        R("after:"), R(".dl after"),
+    ]
+    # named scopes: one inside a macro body (its exports stay in the application's block), one at top level whose exported
+    # labels are used from a sibling scope, from inside a macro body and as macro arguments (backward and forward)
+    mk = ("macrodef", "mkroutine", ["v"], [("scope", "rt", [R("start:"), R("lda.w #v"), R("rts"), R("end:")]), R(".dl rt.start, rt.end")])
+    use = ("macrodef", "callit", ["target"], [R("jsr.w target"), R(".dl target, lib.tail")])
+    out["scope-in-macro"] = [
+        R("*= p"), R("k0 = V0"), mk, use,
+        ("call", "callit", [("expr", "lib.entry")]),
+        ("scope", "lib", [R("entry:"), R("nop"), ("call", "mkroutine", [("expr", "k0")]), R("tail:"), R("rts")]),
+        ("block", [("call", "mkroutine", [("expr", "0x1234")]), ("call", "callit", [("expr", "lib.tail")])]),
+        ("scope", "other", [("call", "mkroutine", [("expr", "k0 + 1")]), R("x:"), ("call", "callit", [("expr", "lib.entry + 1")]), R(".dl lib.entry")]),
+        R(".dl other.x, lib.tail"),
+    ]
+    # a routine relocated to RAM, referenced from ROM before and after; data right before instructions
+    out["relocated-routine"] = [
+        R("*= p"), R("k0 = V0"), store, R("copy_src:"), R(".dl ram_routine, ram_end"),
+        ("call", "store", [("expr", "ram_routine"), ("expr", "k0")]),
+        R("@= 0x7e1000"), R("ram_routine:"), R(".db 1, 2, 3"), R("lda.w #k0"), R("jmp.w ram_routine"), R("ram_end:"),
+        R("*= p + 0x300"), R("back_in_rom:"), R(".dl back_in_rom, ram_routine, copy_src"), R("jsr.l ram_routine"),
+    ]
+    # an included file that defines macros and labels; the includer applies them before and after other definitions
+    inc = [("macrodef", "inc_store", ["a"], [R("sta.l a"), R("inc_local:"), R(".dl inc_local")]), R("inc_label:"), R(".dw 0x1111")]
+    out["include-defines-macros"] = [
+        R("*= p"), R("k0 = V0"), R("before:"), ("include", "defs.s", inc),
+        ("call", "inc_store", [("expr", "inc_label")]), ("call", "inc_store", [("expr", "later")]),
+        ("block", [("call", "inc_store", [("expr", "before")])]), R("later:"), R(".dl inc_label, later"),
+    ]
+    # macros three levels deep with a code-block argument that itself applies a macro and loops
+    out["three-levels"] = [
+        R("*= p"), R("k0 = V0"), R("k1 = V1"),
+        ("macrodef", "leaf", ["x"], [R(".db x")]),
+        ("macrodef", "mid", ["x", "body"], [("call", "leaf", [("expr", "x")]), ("splice", "body"), ("call", "leaf", [("expr", "x + 1")])]),
+        ("macrodef", "top", ["n"], [("for", "q", "0", "n", [("call", "mid", [("expr", "q"), ("code", [("call", "leaf", [("expr", "0x55")]), R("tl:"), R(".dl tl")])])])]),
+        ("call", "top", [("expr", "2")]), R("m1:"), ("call", "mid", [("expr", "k0 & 0xff"), ("code", [("for", "r", "0", "2", [("call", "leaf", [("expr", "r")])])])]),
+        ("call", "top", [("expr", "1")]), R(".dl m1"),
+    ]
     return out
 
 
@@ -162,11 +247,48 @@ def _norm(prog):
     return [f(s) for s in prog]
 
 
-def _asm(src, syms):
+def _loop_level_labels(stmts, in_loop=False, macros=None, acc=None):
+    import re
+
+    acc = set() if acc is None else acc
+    macros = {} if macros is None else macros
+    for st in stmts:
+        k = st[0]
+        if k == "raw" and in_loop:
+            for ln in st[1].split("\n"):
+                m = re.fullmatch(r"\s*([A-Za-z_][A-Za-z_0-9]*):\s*", ln)
+                if m:
+                    acc.add(m.group(1))
+        elif k == "for":
+            _loop_level_labels(st[4], True, macros, acc)
+        elif k == "if":
+            _loop_level_labels(st[2], in_loop, macros, acc)
+            if st[3]:
+                _loop_level_labels(st[3], in_loop, macros, acc)
+        elif k == "macrodef":
+            _loop_level_labels(st[3], False, macros, acc)
+        elif k in ("block",):
+            _loop_level_labels(st[1], False, macros, acc)
+        elif k in ("scope", "include"):
+            _loop_level_labels(st[2], False if k == "scope" else in_loop, macros, acc)
+        elif k == "call":
+            for a in st[2]:
+                if a[0] == "code":
+                    _loop_level_labels(a[1], False, macros, acc)
+    return acc
+
+
+def _asm(src, syms, files=None, cx=None):
     p = new_program(syms=syms)
     w = RecWriter()
     try:
-        err = p.assemble_string_with_emitter(src, "m.s", w)
+        if files:
+            from harness.common import virtual_files
+
+            with virtual_files(cx, files):
+                err = p.assemble_string_with_emitter(src, "m.s", w)
+        else:
+            err = p.assemble_string_with_emitter(src, "m.s", w)
     except Exception as e:  # noqa: BLE001
         return ("rejected", type(e).__name__)
     if err is not None:
@@ -177,14 +299,15 @@ def _asm(src, syms):
 def run(spec, cx):
     g = L.GEOMS["low"]
     p = cx.int("p", 0, 0xFFFFFF)
-    cx.assume(z3.And(L.in_window(g, cx.t("p")), (cx.t("p") & 0xFFFF) <= 0xF000))
+    cx.assume(z3.And(L.in_window(g, cx.t("p")), (cx.t("p") & 0xFFFF) <= (0xC000 if spec["id"].startswith("composite/") else 0xF000)))
     syms = {"p": p}
     for h in ("V0", "V1", "V2", "V3"):
         syms[h] = cx.int(h, 0, 0xFFFF)
     prog = _norm(spec["prog"])
-    orig = _asm(M.render(prog) + "\n", dict(syms))
+    files = {}
+    orig = _asm(M.render(prog, "", files) + "\n", dict(syms), files, cx)
     try:
-        twin_prog = M.Expander().expand(prog)
+        twin_prog = M.Expander(early=("p", "V0", "V1", "V2", "V3") if spec["id"].startswith("composite/") else ()).expand(prog)
     except (KeyError, IndexError) as e:
         return (orig, ("must-be-rejected", type(e).__name__))
     twin = _asm(M.render(twin_prog) + "\n", dict(syms))
@@ -207,7 +330,10 @@ def check(spec, cx, out):
         conds.append(bv(a1) == bv(a2))
         conds += [x == y for x, y in zip(x1, x2)]
     res = [("same-output-as-inlined-twin", z3.And(*conds))]
-    l1, l2 = orig[2], twin[2]
+    # labels defined directly in a `.for` body live in iteration scopes, which the label listing leaves out;
+    # the twin's per-iteration blocks are ordinary scopes: those names are not compared
+    hidden = _loop_level_labels(_norm(spec["prog"]))
+    l1, l2 = orig[2], [(n, v) for n, v in twin[2] if n not in hidden]
     lc = [z3.BoolVal(len(l1) == len(l2))]
     for (n1, v1), (n2, v2) in zip(l1, l2):
         lc.append(z3.BoolVal(n1 == n2))
